@@ -114,7 +114,7 @@ def Step.isBackend : Step → Bool
 /-- pseudo producer id of the sink callback: an `append` made from INSIDE the sink callback (re-entrant use:
 an ack / echo, a logger whose sink logs) is an ordinary append executed by the back-end thread, which
 for its duration is one more producer — `acquire sinkTid … release` while the pc is `inCb` -/
-def sinkTid : Nat := 7
+def sinkTid : Nat := 8
 
 def BPc.isInCb : BPc → Bool
   | .inCb _ => true
